@@ -28,6 +28,8 @@ def main():
         print(log.get("build_error", "") if not ok else "build ok", log.get("gen_changed"), log.get("gen_errors"))
         return 0 if ok else 1
     seed = int(os.environ.get("VERIF_SEED", "20260926"))
+    if a.prop == "LIB":
+        return core.libcheck(a.tier, seed)
     if a.replay:
         return core.replay(a.prop, a.replay)
     tier = a.tier if a.tier in ("quick", "thorough") else "quick"
